@@ -187,7 +187,7 @@ pub fn run(args: &Args) -> i32 {
     run.assume("oracle reading: 'terminal statuses are never left' follows the documentation of MigrationStatus::Complete / truncate_to_height: Complete is chain-derived and reverts to InProgress when a rollback un-mines one of its transactions; every other exit from a terminal status is a violation");
     run.assume("a consumer may record an acknowledged broadcast late (after other events, including the scan having seen the transaction mined); it never records a broadcast for a transaction that was not handed out and acknowledged");
     run.assume("the chain beyond the wallet's scanned tip is invisible to the engine, so the environment keeps chain tip = scanned tip and models the wallet being behind by the estimate lead of the dueness targets (0 or 2 blocks)");
-    run.assume("Rebuild is observed as a report only: executing it needs spend authority and real transaction construction, which are outside this check's alphabet; a proof may be stored a second time on a row that is still Proved (a late second prover; store_proved_transaction / ProvedTransaction::apply do not restrict the row's state) but never on a row that has already been broadcast or mined; mining is derived by advance_migration from the store (the documented driver shape), the consumer does not call mark_mined");
+    run.assume("Rebuild is observed as a report only: executing it needs spend authority and real transaction construction, which are outside this check's alphabet; a proof may be stored a second time on a row that is Proved, Broadcast or Mined (a late second prover started while the row was Signed; store_proved_transaction / ProvedTransaction::apply do not restrict the row's state); mining is derived by advance_migration from the store (the documented driver shape), the consumer does not call mark_mined");
     run.assume("per advance_migration call at most one transaction's oracle answer deviates from the default (marks accumulate over calls); deviating answers are explored only for transactions the engine actually asks about in that call (for every other victim the call is identical by construction) and only at lead 0");
     run.assume("the RNG passed to advance_migration is a script owned by the explorer (anchor age 1 or 2 on the overdue-shift redraw); other draws are not explored");
     run.assume("liveness probe: 'reported' = the drive API returns a step other than Waiting/Complete, or transaction_statuses shows Unsatisfiable/Expired/AwaitingReevaluation; waiting on an in-flight unexpired transaction or on an external signature is not a silent hold; a Waiting whose outlook names a later height is followed to that height");
@@ -301,7 +301,7 @@ pub fn run(args: &Args) -> i32 {
             ],
             "events": ["Advance{lead in {0,2}, oracle in {AllOk, NotYet(i), Spent(i), InputsInvalidated(i), AnchorInvalidated(i)}, anchor age in {1,2}, response}",
                        "responses: Prove => ProveAll | ProveFirst | Ignore; Broadcast => BroadcastOk | BroadcastOkNotRecorded | BroadcastFail(tip) | BroadcastFail(tip+2) | Ignore; Replan => Supersede | Ignore; others => Ignore",
-                       "RecordLate(i)", "Mine(i)", "Tip{+1 | to next scheduled | past next expiry}", "Rollback(h in {tip-1, tip-2, mined-1})", "Cancel", "Supersede", "ApplySignature(i)", "ReProve(i): a second proof stored on a Proved row (with or without a standing failure report)"],
+                       "RecordLate(i)", "Mine(i)", "Tip{+1 | to next scheduled | past next expiry}", "Rollback(h in {tip-1, tip-2, mined-1})", "Cancel", "Supersede", "ApplySignature(i)", "ReProve(i): a second proof stored on a row that is Proved (with or without a standing failure report), Broadcast or Mined"],
         }),
     );
     run.sample(json!({"history_example": history_case(Dag::Chain, 0, !quick, &[
@@ -425,7 +425,7 @@ pub fn run(args: &Args) -> i32 {
             "step:Prove", "step:Broadcast", "step:Rebuild", "step:Replan", "step:Reevaluate", "step:Waiting", "step:Complete",
             "engine:schedule-shift", "engine:anchor-redrawn", "engine:promote-unrecorded-broadcast", "engine:promote-mined", "engine:report-discharged",
             "engine:mark-InputsSpent", "engine:mark-InputsInvalidated", "engine:mark-AnchorInvalidated", "engine:mark-Inherited",
-            "consumer:proof-stored-again", "consumer:proof-stored-again-under-report",
+            "consumer:proof-stored-again-on-Proved", "consumer:proof-stored-again-on-Broadcast", "consumer:proof-stored-again-on-Mined", "consumer:proof-stored-again-under-report",
             "consumer:broadcast-ok-not-recorded", "consumer:late-record-on-Mined", "consumer:late-record-on-Proved", "consumer:late-record-on-Broadcast",
             "chain:rollback-unmines", "status:Complete->InProgress", "reached-terminal:Complete", "reached-terminal:Cancelled", "reached-terminal:Superseded",
             "probe-end:Waiting", "probe-end:Rebuild", "probe-end:Replan", "targets:estimate-ahead",
